@@ -20,6 +20,8 @@ RAW_PARAMS = {"Port": 8080, "Enabled": True, "Ratio": 1.5}  # values a caller ma
 MAPPINGS = {
     "RegionMap": {"eu-west-1": {"AMI": "ami-1", "Zones": ["a", "b"], "Empty": ""}, "us-east-1": {"AMI": "ami-2", "Zones": ["c"]}},
     "EnvMap": {"prod": {"Size": "large"}, "dev": {"Size": "small"}},
+    # flags as the numbers / booleans / words a template author writes
+    "Flags": {"prod": {"Versioning": 1, "Logging": True, "Public": "no"}, "dev": {"Versioning": 0, "Logging": False, "Public": "yes"}},
 }
 CONDS = {"IsProd": True, "IsDev": False}
 UNDEF = ["Nope", "Missing", "AWS::Unknown"]
